@@ -243,6 +243,15 @@ def gen(chk):
                 else:
                     prog = '"before".p\n' + wrap(w, body) + '\n"after".p\n'
                 cases.append((prog, expect(w, list(range(1, k + 1)), b, k), "chain:" + name + "/" + w))
+    # a raise inside a predicate handed to a library method stops the program like any other (kinds other than StopIterErr: inside
+    # the iterator-based natives that kind is, by design, the end-of-iteration signal)
+    for pname, pexpr in (("grep", "[1, 2].grep({|x| %s(x)})"), ("indices", "[1, 2].indices({|x| %s(x)})"), ("find", "[1, 2].find {|x| %s(x)}"),
+                         ("select", "[1, 2].select {|x| %s(x)}"), ("any", "[1, 2].any? {|x| %s(x)}"), ("all", "[1, 2].all? {|x| %s(x)}"),
+                         ("map", "[1, 2].map {|x| %s(x)}"), ("exclude", "[1, 2].exclude {|x| %s(x)}")):
+        for w in ("plain", "try", "fn"):
+            for b in ("boom", "boomz", "boomn") if w != "try" else ("boom",):
+                prog = '"before".p\n' + wrap(w, pexpr % b) + '\n"after".p\n'
+                cases.append((prog, expect(w, [1], b, 1), "predicate:" + pname + "/" + w))
     rng.setstate(st)
     # nested, random
     n = 500 if chk.tier == "quick" else 15000
